@@ -4,3 +4,5 @@ void error(const char *location, const char *format, ...) { (void)location; (voi
 void warning(const char *location, const char *format, ...) { (void)location; (void)format; }
 void info(const char *location, const char *format, ...) { (void)location; (void)format; }
 void log_message(const char *format, ...) { (void)format; }
+/* the C13 hook (-DKALIGN_VERIF) calls this from detect_alphabet; only the C13 extractor gives it a body that records */
+void kalign_verif_tables(const double *dna, const double *protein) { (void)dna; (void)protein; }
